@@ -262,6 +262,11 @@ class Engine:
         if txt in consts:
             return const_val(self, consts[txt])
         base = self.eval(node.value, st, spec)
+        if isinstance(base, TupV):
+            # a named tuple: field positions are declared by the contract (ghost["tuple_fields"])
+            pos = self.c.ghost.get("tuple_fields", {}).get(node.attr)
+            if pos is not None and pos < len(base.items):
+                return base.items[pos]
         if isinstance(base, ObjV):
             if base.present is not None:
                 self.may_raise(st, base.present, "AttributeError", txt)
